@@ -309,11 +309,23 @@ def _derive_and_discard(g, V):
         pass
 
 
-def _mkcon(con, V):
+def _inplace_identity(g):
+    """three documented in-place scalings whose product is 1 (exact in binary floating point): a convex function becomes
+    concave, convex again with factor 2, and itself again - the function that enters the problem is the one written down"""
+    if hasattr(g, 'variables') and not hasattr(g, 'name'):
+        g *= -1
+        g *= -2.0
+        g /= 2
+    return g
+
+
+def _mkcon(con, V, inplace=False):
     a, b = _build(con[0], V), _build(con[2], V)
     for g in (a, b):
         if hasattr(g, 'variables'):
             _derive_and_discard(g, V)
+    if inplace:
+        a, b = _inplace_identity(a), _inplace_identity(b)
     if con[1] == '<=':
         return a <= b
     if con[1] == '>=':
@@ -343,8 +355,11 @@ def observe(prob, fmt, solver):
     """build the problem from scratch, solve it in one configuration, return plain-Python observations."""
     from cvxopt.modeling import variable, op
     V = {'x': variable(1, 'x'), 'y': variable(2, 'y'), 'z': variable(1, 'z')}
+    # with the GLPK back-end the functions are additionally passed through in-place scalings that multiply to 1
     obj = _build(prob['obj'], V)
-    cons = [_mkcon(c, V) for c in prob['cons']]
+    if solver != 'default':
+        obj = _inplace_identity(obj)
+    cons = [_mkcon(c, V, inplace=(solver != 'default')) for c in prob['cons']]
     ob = {'pre': _probe(V, obj, cons), 'clen': [len(c) for c in cons], 'ctype': [c.type() for c in cons]}
     p = op(obj, cons)
     if fmt == 'sparse':
